@@ -3,6 +3,7 @@ states; oracle: exit status in {0,1,2,3}, no panic, diagnostic on stderr when no
 time.  A search, not a proof."""
 
 import os
+import random
 import re
 import subprocess
 
@@ -233,6 +234,25 @@ BOUNDARY_PROBES = [
 ]
 
 
+def hidden_probes():
+    """every patch-taking command with the hidden patch h0 alone, next to applied / unapplied patches,
+    and as the end of a range (the boundary state has applied p0..p3, unapplied p4, hidden h0)"""
+    sels = [["h0"], ["p1", "h0"], ["h0", "p4"], ["p3", "h0"], ["p3..h0"], ["h0..p4"], ["p2", "p3", "h0"]]
+    cmds = [["commit"], ["commit", "--allow-empty"], ["delete"], ["hide"], ["unhide"], ["push"], ["push", "--noapply"],
+            ["pop"], ["float"], ["float", "--noapply"], ["sink"], ["sink", "--to", "p1"], ["squash", "-m", "s"],
+            ["pick"], ["pick", "--noapply"], ["show"], ["id"], ["export", "--stdout"], ["series"], ["files"],
+            ["reset", "refs/stacks/main~2"]]
+    out = []
+    for c in cmds:
+        for sel in sels:
+            if c[0] == "id" and len(sel) > 1:
+                continue
+            out.append(c + sel)
+    out += [["goto", "h0"], ["edit", "-m", "x", "h0"], ["rename", "h0", "p1"], ["refresh", "-p", "h0"],
+            ["new", "-m", "x", "h0"], ["new", "-m", "x", "H0"], ["uncommit", "h0"], ["uncommit", "-n", "2", "h"]]
+    return out
+
+
 def make_boundary_state(r, stg):
     """applied p0..p3, unapplied p4, hidden h0, a second branch `other`"""
     r.init_repo()
@@ -248,12 +268,15 @@ def make_boundary_state(r, stg):
     r.git(["checkout", "-q", "main"])
 
 
-def run_boundary_probes(stg, tag="fzb"):
+def run_boundary_probes(stg, tag="fzb", seed=1, quick=True):
     failures = []
     total = 0
     r = None
+    hp = hidden_probes()
+    if quick:
+        hp = random.Random(seed).sample(hp, 45)
     try:
-        for argv in BOUNDARY_PROBES:
+        for argv in BOUNDARY_PROBES + hp:
             if r is None:
                 r = repo.Scratch(tag)
                 r.__enter__()
